@@ -430,29 +430,31 @@ def parseConsumers (msg : Msg) (data : Bytes) : Res Msg :=
   | none => .panic
   | some d => .ok { msg with data := d }
 
+/-- the `switch msg.Type` of `parseNetworkMessage` -/
+def dispatch (O : Oracle) (msg : Msg) (t : UInt8) (data : Bytes) : Res Msg :=
+  if t = tPreCommitments then parsePreCommitments O msg data
+  else if t = tGraph then parseGraph msg data
+  else if t = tPing then parsePing msg data
+  else if t = tAuthentication then parseAuthentication msg data
+  else if t = tSnapshotConfirm then parseSnapshotConfirm msg data
+  else if t = tTransaction then parseTransaction O msg data
+  else if t = tTransactionBundle ∨ t = tFinalizedTransactionBundle then parseBundle O msg data
+  else if t = tTransactionRequest then parseTransactionRequest msg data
+  else if t = tAnnouncement then parseAnnouncement O msg data
+  else if t = tCommitment then parseCommitment O msg data
+  else if t = tFullChallenge then parseFullChallenge O msg data
+  else if t = tTransactionChallenge then parseTransactionChallenge O msg data
+  else if t = tResponse then parseResponse msg data
+  else if t = tFinalization then parseFinalization O msg data
+  else if t = tRelay then parseRelay msg data
+  else if t = tConsumers then parseConsumers msg data
+  else .ok msg
+
 /-- `parseNetworkMessage(version, data)` -/
 def parse (O : Oracle) (version : UInt8) (data : Bytes) : Res Msg :=
   match data with
   | [] => .reject
-  | t :: _ =>
-    let msg : Msg := { type := t, version := version }
-    if t = tPreCommitments then parsePreCommitments O msg data
-    else if t = tGraph then parseGraph msg data
-    else if t = tPing then parsePing msg data
-    else if t = tAuthentication then parseAuthentication msg data
-    else if t = tSnapshotConfirm then parseSnapshotConfirm msg data
-    else if t = tTransaction then parseTransaction O msg data
-    else if t = tTransactionBundle ∨ t = tFinalizedTransactionBundle then parseBundle O msg data
-    else if t = tTransactionRequest then parseTransactionRequest msg data
-    else if t = tAnnouncement then parseAnnouncement O msg data
-    else if t = tCommitment then parseCommitment O msg data
-    else if t = tFullChallenge then parseFullChallenge O msg data
-    else if t = tTransactionChallenge then parseTransactionChallenge O msg data
-    else if t = tResponse then parseResponse msg data
-    else if t = tFinalization then parseFinalization O msg data
-    else if t = tRelay then parseRelay msg data
-    else if t = tConsumers then parseConsumers msg data
-    else .ok msg
+  | t :: _ => dispatch O { type := t, version := version } t data
 
 /-! ## builders.  Signatures and the encodings of snapshots / transactions are inputs:
 the signature is whatever `SignData` / `Key.Sign` returned (64 bytes), a snapshot is its
